@@ -158,6 +158,12 @@ def mk_link(cx, cls, name, start, end, **fields):
 def options(cx, **hyd):
     h = dict(pressure_exponent=0.5, minimum_pressure=0.0, required_pressure=0.07, demand_multiplier=1.0)
     h.update(hyd)
+    # the other numeric options of the same group are arbitrary numbers of their own (code that reads the wrong one gets a different symbol)
+    if getattr(cx, "mode", "symbolic") == "symbolic":
+        for other in ("emitter_exponent", "specific_gravity", "viscosity", "accuracy", "headerror", "flowchange", "damplimit"):
+            h.setdefault(other, cx.path.fresh("option_" + other, "real"))
+    else:
+        h.setdefault("emitter_exponent", 0.77)
     return cx.obj(types.SimpleNamespace, hydraulic=cx.obj(types.SimpleNamespace, **h),
                   time=cx.obj(types.SimpleNamespace, pattern_start=0))
 
